@@ -1,18 +1,25 @@
 """C18 - header values the library renders parse back to the same value."""
+import calendar
 import itertools
+import time
 
 from harness.core import hx, unhx, Violation, excname
 
 LEAN_TARGETS = ["PoorProofs.Props.C18"]
 AUDIT_IMPORTS = ["PoorProofs.Props.C18"]
-LEAN_FILES = ["PoorModel/HeaderValue.lean", "PoorProofs/Lemmas/HeaderValue.lean", "PoorProofs/Props/C18.lean"]
+LEAN_FILES = ["PoorModel/HeaderValue.lean", "PoorModel/Date.lean", "PoorProofs/Lemmas/HeaderValue.lean",
+              "PoorProofs/Lemmas/Date.lean", "PoorProofs/Props/C18.lean"]
 THEOREMS = ["Poor.HeaderValue.unescape_escQ", "Poor.HeaderValue.splitSeg_quoted", "Poor.Props.C18.parseOne_render",
             "Poor.Props.C18.C18_params", "Poor.Props.C18.C18_ranges", "Poor.Props.C18.C18_nego",
-            "Poor.Props.C18.C18_total", "Poor.Props.C18.pattern_pinned"]
+            "Poor.Props.C18.C18_total", "Poor.Props.C18.pattern_pinned", "Poor.Date.ord_roundtrip",
+            "Poor.Date.ord2ymd_valid", "Poor.Date.ord2ymd_year", "Poor.Date.parse_render", "Poor.Props.C18.C18_dates",
+            "Poor.Props.C18.C18_dates_injective", "Poor.Props.C18.C18_dates_width"]
 TRUSTED_BASE = ["model Poor.HeaderValue hand-written from headers.py:27-144 and wsgiref.headers._formatparam",
                 "RE_BYTES_RANGE scanner: pattern text pinned by Gen.Patterns (obligation pattern_pinned)",
                 "q-values: float(str(x)) == x for CPython floats (repr round trip) - canonicalised by the harness",
-                "HTTP dates (strftime/strptime, calendar): correspondence and oracle only, no theorem"]
+                "HTTP dates: model Poor.Date = CPython's _ord2ymd/_ymd2ord plus strftime in the C locale and strptime on the "
+                "canonical shape only (other shapes are answered `unsupported`); tied to datetime/time_to_http/http_to_time "
+                "by correspondence on timestamps, ordinals and mutated date strings"]
 ASSUMPTIONS = ["parameter names are lower-case ASCII tokens (parse_header lower-cases names)",
                "str.strip() whitespace set as listed in Poor.HeaderValue.isSpace"]
 RULE = ("parameter dictionaries up to 4 entries over {letters, space, ';', '\"', '\\\\', '=', ',', non-ASCII}; negotiation "
@@ -80,10 +87,37 @@ def generate(rng, tier):
         cases.append("C18 range " + hx(j))
     for _ in range(600 if tier == "thorough" else 150):
         cases.append("C18 range " + hx(rand_text(rng, rng.randrange(0, 12), ["b", "=", "-", ",", "1", "0", "9", " ", "x"])))
-    # dates (oracle only)
-    for ts in [0, 1, 59, 86399, 86400, 951782400, 951868800, 1582934400, 2 ** 31 - 1, 2 ** 31, 4102444800, 253402300799,
-               1790726400] + [rng.randrange(0, 253402300800) for _ in range(400 if tier == "thorough" else 80)]:
+    # dates: rendering and parsing against the model, calendar arithmetic against datetime.date
+    stamps = [0, 1, 59, 86399, 86400, 951782400, 951868800, 1582934400, 2 ** 31 - 1, 2 ** 31, 4102444800, 253402300799,
+              1790726400, 68169600, 68255999, 68256000, 11644473600, 32503679999, 32503680000, 253370764800]
+    # around every century change and the leap days of 2000, 2100, 2400
+    for y in (1999, 2000, 2099, 2100, 2399, 2400, 9999):
+        for mo, d in ((2, 28), (3, 1), (12, 31), (1, 1)):
+            stamps.append(calendar.timegm((y, mo, d, 23, 59, 59)))
+            if y < 9999 or (mo, d) != (12, 31):
+                stamps.append(calendar.timegm((y, mo, d, 23, 59, 59)) + 1)
+    stamps += [rng.randrange(0, 253402300800) for _ in range(600 if tier == "thorough" else 120)]
+    for ts in stamps:
         cases.append("C18 date %d" % ts)
+    for ts in rng.sample(stamps, 40) + stamps[:12]:
+        text = time.strftime("%a, %d %b %Y %H:%M:%S GMT", time.gmtime(ts)) if ts < 2 ** 33 else None
+        if text is None:
+            import datetime
+            text = datetime.datetime.fromtimestamp(ts, datetime.timezone.utc).strftime("%a, %d %b %Y %H:%M:%S GMT")
+        cases.append("C18 dparse " + hx(text))
+        muts = [text.replace(text[:3], rng.choice(["Mon", "Sun", "Wed"])),           # any day name: not cross-checked
+                text[:5] + "31" + text[7:], text[:5] + "30 Feb" + text[11:], text[:5] + "29 Feb 2100" + text[16:],
+                text[:5] + "29 Feb 2400" + text[16:], text[:5] + "00" + text[7:], text[:5] + "32" + text[7:],
+                text[:17] + "24" + text[19:], text[:20] + "60" + text[22:], text[:23] + "60" + text[25:],
+                text[:23] + "61" + text[25:], text[:12] + "0000" + text[16:], text[:12] + "1969" + text[16:],
+                text[:12] + "1970" + text[16:], text.lower(), text.replace(" GMT", ""), text.replace(" GMT", " UTC"),
+                text.replace(", ", ","), text + " ", " " + text, text.replace(":", "."), text[:8] + "Foo" + text[11:],
+                "Xyz" + text[3:], text.replace("0", "\u0660", 1), text[:5] + text[6:], ""]
+        for m in rng.sample(muts, 8):
+            cases.append("C18 dparse " + hx(m))
+    for o in [1, 2, 365, 366, 367, 1461, 1462, 36524, 36525, 36526, 146096, 146097, 146098, 719162, 719163, 719164,
+              730119, 730120, 3652059] + [rng.randrange(1, 3652060) for _ in range(300 if tier == "thorough" else 60)]:
+        cases.append("C18 civil %d" % o)
     return cases
 
 
@@ -98,8 +132,6 @@ def render_ranges(rs, unit="bytes"):
 
 def to_model(case):
     t = case.split()
-    if t[1] == "date":
-        return []
     if t[1] == "params":
         return ["C18 render %s %s" % (t[2], t[3])]
     return [case]
@@ -122,6 +154,17 @@ def observe(case):
     try:
         if t[1] == "params":
             return hx(render_impl(unhx(t[2]).decode(), parse_pairs(t[3])))
+        if t[1] == "date":
+            return hx(H.time_to_http(int(t[2])))
+        if t[1] == "dparse":
+            try:
+                return "ok %d" % H.http_to_time(unhx(t[2]).decode())
+            except ValueError:
+                return "ValueError"
+        if t[1] == "civil":
+            import datetime
+            d = datetime.date.fromordinal(int(t[2]))
+            return "%d %d %d %d" % (d.year, d.month, d.day, d.toordinal())
         if t[1] == "hdr":
             main, pd = H.parse_header(unhx(t[2]).decode())
             if any(not k.isascii() for k in pd):
